@@ -65,7 +65,17 @@ def case_strategy(draw, pair=None):
         via = "route"
     # request identifiers over full width
     ids = {"hbh": draw(gens.hdr_field(32)), "e2e": draw(gens.hdr_field(32))}
-    return {"req": req, "ans": ans, "rc": rcspec, "via": via, "req_form": draw(st.sampled_from(["built", "decoded"])), "ids": ids}
+    # what happened to the answer object before the handler returns it: nothing; the handler set the error flag itself (as RFC 6733
+    # asks for an error answer); or the object is a reused one - it already went through one request with another Result-Code
+    # (possibly looked at with a family predicate) and the code was then changed in place
+    pre = {"kind": "none"}
+    if mode == "result":
+        k = draw(st.sampled_from(["none", "none", "e-set", "reused", "reused", "predicate"]))
+        if k == "e-set":
+            pre = {"kind": "e-set"}
+        elif k in ("reused", "predicate"):
+            pre = {"kind": k, "code0": draw(st.sampled_from([1001, 2001, 2002, 3002, 3008, 4001, 4181, 5001, 5012, 5999]))}
+    return {"req": req, "ans": ans, "rc": rcspec, "via": via, "req_form": draw(st.sampled_from(["built", "decoded"])), "ids": ids, "pre": pre}
 
 
 def _build(case_typed, extra_kwargs=None):
@@ -97,7 +107,20 @@ def check_pair(case):
         request = _build(case["req"])
         request.header.hop_by_hop = case["ids"]["hbh"]
         request.header.end_to_end = case["ids"]["e2e"]
-        answer = _build(case["ans"], extra)
+        pre = case.get("pre") or {"kind": "none"}
+        if pre["kind"] in ("reused", "predicate"):
+            from bromelia import utils as U
+            answer = _build(case["ans"], {"result_code": pre["code0"]})
+            if pre["kind"] == "reused":
+                decorate_answer(answer, _build(case["req"]))
+            else:
+                [f(answer) for f in (U.is_1xxx_informational, U.is_2xxx_success, U.is_3xxx_failure, U.is_4xxx_failure, U.is_5xxx_failure)]
+            answer.result_code_avp.data = rc.ref_u32(rcs["code"])
+        else:
+            answer = _build(case["ans"], extra)
+            n0 = rcs["code"]
+            if pre["kind"] == "e-set" and n0 // 1000 in (3, 4, 5) and n0 % 1000:
+                answer.header.set_error_bit(True)
         req_wire = rc.dec_stream(request.dump())[0]
         if case["req_form"] == "decoded":
             request = DiameterMessage.load(request.dump())[0]
@@ -179,7 +202,7 @@ def run_case(case):
 
 
 def features(case):
-    f = {"via=" + case["via"], "req=" + case["req_form"], "mode=" + case["rc"]["mode"]}
+    f = {"via=" + case["via"], "req=" + case["req_form"], "mode=" + case["rc"]["mode"], "answer-object=" + (case.get("pre") or {"kind": "none"})["kind"]}
     n = case["rc"]["code"]
     if not (1 <= n // 1000 <= 5 and 1 <= n % 1000 <= 7):
         f.add("code-outside-x001-x007")
@@ -204,7 +227,8 @@ def _collect(shard, seed, n, of):
         def body(case):
             status, why, vs = check_pair(case)
             f = features(case)
-            nt = bool(f & {"code-outside-x001-x007", "session-id-unaligned", "mode=exp", "mode=both"}) and status == "ok"
+            nt = bool(f & {"code-outside-x001-x007", "session-id-unaligned", "mode=exp", "mode=both", "answer-object=reused", "answer-object=predicate",
+                           "answer-object=e-set"}) and status == "ok"
             col.record(case, vs, nontrivial=nt, classes=sorted(f), discard=why)
 
         common.hyp_collect(case_strategy(pair), body, n, seed + i)
@@ -271,7 +295,8 @@ def main(ctx):
     col.extra["exhaustive_scope"] = f"every Result-Code 1001..5999 (non-multiples of 1000) through decorate_answer on {len(idxs)} request/answer pair(s)"
     for path, rec in common.load_replays(PID):
         col.record(rec["case"], run_case(rec["case"]), nontrivial=True, classes=["replay"])
-    ctx.required_classes = ["via=route", "via=decorate", "req=decoded", "mode=exp", "mode=both", "session-id-unaligned",
+    ctx.required_classes = ["via=route", "via=decorate", "req=decoded", "mode=exp", "mode=both", "session-id-unaligned", "answer-object=reused",
+                            "answer-object=e-set", "answer-object=predicate",
                             "code-outside-x001-x007", "sweep", "family=3", "family=4", "family=5"]
     ctx.assumptions = ["handler answers are freshly constructed typed answers (E bit not pre-set, Session-Id present when the request has one)",
                        "codes that are multiples of 1000 are not generated; with both Result-Code and Experimental-Result the Result-Code "
